@@ -2,6 +2,7 @@
 backends from a JSON config, record into a scratch directory, and parse GUPPI RAW files with
 an independent reader (80-byte cards up to END; when DIRECTIO is non-zero the header is padded to
 the next multiple of 512 only if not already a multiple; then BLOCSIZE bytes)."""
+import copy
 import glob
 import io
 import os
@@ -55,6 +56,12 @@ def build_backend(c, src=None):
     filterbank = V.PolyphaseFilterbank(num_taps=c["taps"], num_branches=c["nb"], window_fn=c.get("window_fn", "hamming"))
     requantizer = V.ComplexQuantizer(target_fwhm=rq.get("fwhm", 32), num_bits=c.get("nbits", 8),
                                      stats_calc_period=rq.get("period", 1), stats_calc_num_samples=rq.get("num", 10000))
+    if c.get("element_lists"):
+        # the documented alternative to one prototype per element: a list of separate objects per antenna and polarisation
+        na = int(getattr(src, "num_antennas", 1))
+        npol = int(src.num_pols)
+        mk = lambda proto: [[copy.deepcopy(proto) for _ in range(npol)] for _ in range(na)]
+        digitizer, filterbank, requantizer = mk(digitizer), mk(filterbank), mk(requantizer)
     be = V.RawVoltageBackend(src, digitizer=digitizer, filterbank=filterbank, requantizer=requantizer,
                              start_chan=c.get("start_chan", 0), num_chans=c["nchans"], block_size=c["block_size"],
                              blocks_per_file=c.get("blocks_per_file", 128), num_subblocks=c.get("num_subblocks", 32))
